@@ -104,16 +104,20 @@ def _(u):
     o1 = u.run(UT, "RewardScaler.__call__", x, selfobj=u.obj(UT, "RewardScaler", scale=c), record=False)
     same_tensor(u, "call.int.divides", o1, (m,), lambda k: x.at(k) / z3.ToReal(c), tags=("C20",))
     for mode in ("norm", "scale"):
-        n, mu, M2 = u.scalar(f"n_{mode}", "i"), u.scalar(f"mean_{mode}", "f"), u.scalar(f"M2_{mode}", "f")
+        # state after at least one earlier observation: count is a Python int, mean and M2 are 0-dim tensors
+        n, mu_t, M2_t = u.scalar(f"n_{mode}", "i"), u.tensor(f"mean_{mode}", (), "f"), u.tensor(f"M2_{mode}", (), "f")
+        mu, M2 = mu_t.at(), M2_t.at()
         u.requires(AND(n >= 1, M2 >= 0, EPS > 0))
         # sqrt is non-negative (axiom of the uninterpreted sqrt, A1)
         sq = z3.Real("sq_arg")
         u.requires(z3.ForAll([sq], ops.UF["sqrt"](sq) >= 0))
-        obj = u.obj(UT, "RewardScaler", scale=mode, count=n, mean=mu, M2=M2)
+        obj = u.obj(UT, "RewardScaler", scale=mode, count=n, mean=mu_t, M2=M2_t)
         pre = u.snapshot(x)
         u.inline((UT, "RewardScaler.update"))
         out = u.run(UT, "RewardScaler.__call__", x, selfobj=obj, record=False)
         n2, mu2, M22 = (_scalar(obj._attrs[k]) for k in ("count", "mean", "M2"))
+        # every call observes its whole batch, whatever its size (a batch of one value included)
+        u.prove(f"call.{mode}.observes-the-batch", n2 == n + m, tags=("C20",))
         std = ops.UF["sqrt"](M22 / z3.ToReal(n2 - 1))  # sample standard deviation of everything observed (incl. this batch)
         if mode == "norm":
             same_tensor(u, "call.norm", out, (m,), lambda k: (pre.at(k) - mu2) / (std + EPS), tags=("C20",))
